@@ -32,6 +32,18 @@ Theorem c09_prim_progress : forall buf c size indef chk,
 Proof. exact prim_progress. Qed.
 Print Assumptions c09_prim_progress.
 
+(* asnCopyOid: for EVERY derlen (an unbounded number, not its low octet) the stores stay inside the
+   caller's MAX_OID_BYTES array; the result is never longer than MAX_OID_BYTES; acceptance implies
+   derlen + 2 <= MAX_OID_BYTES and an exact copy *)
+Theorem c09_oid_copy_bounded : forall buf limit p derlen,
+  holds buf limit -> p + derlen <= limit ->
+  safe (asnCopyOid buf limit p derlen) /\
+  (forall ret oid, asnCopyOid buf limit p derlen = Ok (ret, oid) ->
+     lenN oid <= n_MAX_OID_BYTES /\ ret < 256 /\
+     (0 < ret -> 1 <= derlen /\ derlen + 2 <= n_MAX_OID_BYTES /\ oid = [n_ASN_OID; derlen] ++ sub_bytes buf p derlen)).
+Proof. exact p09_oid_copy_bounded. Qed.
+Print Assumptions c09_oid_copy_bounded.
+
 (* getAsnTagLenUnsafe has no size argument; it is safe under its call-site contract (header inside the block) *)
 Theorem c09_taglen_unsafe_partial : forall buf limit c,
   holds buf limit -> c + 5 <= limit -> safe (getAsnTagLenUnsafe buf limit c).
